@@ -85,7 +85,10 @@ def matrix_inverse_root(
 
     # check if matrix is scalar
     if torch.numel(A) == 1:
-        return (A + epsilon) ** torch.as_tensor(-1.0 / root)
+        # NOTE: A negative entry is shifted to zero, consistent with the eigenvalue shift in _matrix_inverse_root_eigen.
+        return (A - torch.minimum(A, torch.zeros_like(A)) + epsilon) ** torch.as_tensor(
+            -1.0 / root
+        )
 
     # check matrix shape
     if len(A.shape) != 2:
